@@ -27,3 +27,162 @@ V("C13", "delete_own_keys", "fire", [(JT, "to_delete = [p for p in old_pointers 
                                       "to_delete = [jsonpointer.JsonPointer('/' + k) for k in full_new_config.keys() if ('/' + k) not in paths]")], rule="C13.R4")
 V("C13", "wrong_acl_for_delete", "fire", [(JT, "old_pointers = _resolve_json_pointers(acl_item, full_new_config)",
                                            "old_pointers = _resolve_json_pointers(acl[0], full_new_config)")], rule="C13.R4")
+
+PT = "annet/annlib/patching.py"
+CM = "annet/annlib/rulebook/common.py"
+API = "annet/api/__init__.py"
+TP = "annet/annlib/tabparser.py"
+SX = "annet/annlib/rbparser/syntax.py"
+ACLP = "annet/annlib/rbparser/acl.py"
+RP = "annet/rulebook/patching.py"
+DP = "annet/deploy.py"
+GEN = "annet/gen.py"
+GI = "annet/generators/__init__.py"
+RES = "annet/generators/result.py"
+PAR = "annet/parallel.py"
+IMP = "annet/implicit.py"
+
+# ---------------------------------------------------------------- C01
+V("C01", "drop_removed_arm", "fire", [(CM, "    elif diff[Op.REMOVED]:\n        # При удалении или перемещеннии блока просто снести строку\n        yield (False, rule[\"reverse\"].format(*key), None)\n\n\ndef ordered", "\n\ndef ordered")], rule="C01.R2")
+V("C01", "undo_redo_swapped", "fire", [(CM, "for side in [Op.REMOVED, Op.ADDED]:", "for side in [Op.ADDED, Op.REMOVED]:")], rule="C01.R2")
+V("C01", "twin_default_respelled", "silent", [(CM, "    elif diff[Op.REMOVED]:\n        # При удалении или перемещеннии блока просто снести строку\n        yield (False, rule[\"reverse\"].format(*key), None)",
+                                               "    else:\n        if diff[Op.REMOVED]:\n            yield (False, rule[\"reverse\"].format(*key), None)")])
+V("C01", "pre_not_sub_pre", "fire", [(PT, "                            pre=sub_pre,", "                            pre=pre,")], rule="C01.R1")
+V("C01", "strip_before_pre", "fire", [(API, "    diff_tree = patching.make_diff(old, new, rb, [acl_rules, filter_acl_rules])\n    pre = patching.make_pre(diff_tree)",
+                                       "    diff_tree = patching.make_diff(old, new, rb, [acl_rules, filter_acl_rules])\n    diff_tree = patching.strip_unchanged(diff_tree)\n    pre = patching.make_pre(diff_tree)")], rule="C01.R1")
+V("C01", "add_block_guard", "fire", [(PT, "if (not item[\"children\"] and not item[\"parent\"]) or not item[\"direct\"]:", "if not item[\"children\"] or not item[\"direct\"]:")], rule="C01.R3")
+V("C01", "twin_add_block_demorgan", "silent", [(PT, "if (not item[\"children\"] and not item[\"parent\"]) or not item[\"direct\"]:", "if not (item[\"direct\"] and (item[\"children\"] or item[\"parent\"])):")])
+V("C01", "twin_rename_local", "silent", [(API, "    pre = patching.make_pre(diff_tree)\n    patch_tree = patch_from_pre(pre, device.hw, rb, add_comments, ref_track, do_commit)",
+                                          "    grouped = patching.make_pre(diff_tree)\n    patch_tree = patch_from_pre(grouped, device.hw, rb, add_comments, ref_track, do_commit)")])
+V("C01", "bad_rule_row", "fire", [("annet/rulebook/texts/arista.rul", "\n", "\nfoo (a|b) *\n")], rule="C01.R4")
+V("C01", "twin_good_rule_row", "silent", [("annet/rulebook/texts/arista.rul", "\n", "\nfoo */(a|b)/ *\n")])
+
+# ---------------------------------------------------------------- C02
+V("C02", "break_after_first_acl", "fire", [(PT, "            diff = apply_acl_diff(diff, acl_rules)\n    diff = mark_unchanged(diff)", "            diff = apply_acl_diff(diff, acl_rules)\n            break\n    diff = mark_unchanged(diff)")], rule="C02.R1")
+V("C02", "no_cant_delete_rewrite", "fire", [(PT, "            if op == Op.REMOVED and all(match[\"attrs\"][\"cant_delete\"]):\n                op = Op.AFFECTED\n", "")], rule="C02.R2")
+V("C02", "twin_rewrite_ifexp", "silent", [(PT, "            if op == Op.REMOVED and all(match[\"attrs\"][\"cant_delete\"]):\n                op = Op.AFFECTED\n",
+                                           "            op = Op.AFFECTED if (op == Op.REMOVED and all(match[\"attrs\"][\"cant_delete\"])) else op\n")])
+V("C02", "only_filter_acl", "fire", [(API, "patching.make_diff(old, new, rb, [acl_rules, filter_acl_rules])", "patching.make_diff(old, new, rb, [filter_acl_rules])")], rule="C02.R4")
+V("C02", "uniter_first_wins", "fire", [(ACLP, "\"default\":   (lambda raw_rule: [raw_rule.startswith(\"interface\")]),  # FIXME: ужас какой\n        \"uniter\": (lambda a, b: a + b)",
+                                         "\"default\":   (lambda raw_rule: [raw_rule.startswith(\"interface\")]),  # FIXME: ужас какой\n        \"uniter\": (lambda a, b: a)")], rule="C02.R5")
+V("C02", "twin_none_check_respelled", "silent", [(PT, "        if acl_rules is not None:\n            diff = apply_acl_diff(diff, acl_rules)", "        if acl_rules is None:\n            continue\n        diff = apply_acl_diff(diff, acl_rules)")])
+
+# ---------------------------------------------------------------- C03
+V("C03", "moved_missing_in_order", "fire", [("annet/annlib/diff.py", "    Op.MOVED: 1,\n", "")], rule="C03.R1")
+V("C03", "moved_sign_blank", "fire", [(TP, "            Op.MOVED: \">\",", "            Op.MOVED: \" \",")], rule="C03.R1")
+V("C03", "drop_new_pop", "fire", [(PT, "            old.pop(row, None)\n            new.pop(row, None)", "            old.pop(row, None)")], rule="C03.R3")
+V("C03", "strip_no_recursion", "fire", [(PT, "        children = strip_unchanged(children)\n", "")], rule="C03.R4")
+V("C03", "twin_strip_respelled", "silent", [(PT, "        if op == Op.UNCHANGED:\n            continue\n        children = strip_unchanged(children)\n        passed.append((op, row, children, d_match))",
+                                             "        if op != Op.UNCHANGED:\n            children = strip_unchanged(children)\n            passed.append((op, row, children, d_match))")])
+V("C03", "added_guard_changed", "fire", [(CM, "        if row not in old:\n            block_in_disorder = True\n            op = Op.ADDED", "        if row not in old and not block_in_disorder:\n            block_in_disorder = True\n            op = Op.ADDED")], rule="C03.R2")
+
+# ---------------------------------------------------------------- C06
+V("C06", "store_match_key", "fire", [(PT, "                passed[row] = apply_acl(", "                passed[test_row] = apply_acl(")], rule="C06.R1")
+V("C06", "swallow_fatal", "fire", [(PT, "        elif fatal_acl:\n            raise AclError(\" / \".join(_path + (row,)))", "        elif fatal_acl and _path:\n            raise AclError(\" / \".join(_path + (row,)))")], rule="C06.R2")
+V("C06", "global_only_if_cr", "fire", [(PT, "    global_children = merge_dicts(global_children, rules[\"global\"])\n", "    if is_f_cr_allowed:\n        global_children = merge_dicts(global_children, rules[\"global\"])\n")], rule="C06.R3")
+V("C06", "merge_skip_repeated", "fire", [(ACLP, "            for (key, value) in attrs[\"params\"].items():", "            if attrs[\"children\"] == []:\n                continue\n            for (key, value) in attrs[\"params\"].items():")], rule="C06.R4")
+V("C06", "twin_fatal_respelled", "silent", [(PT, "        elif fatal_acl:\n            raise AclError(\" / \".join(_path + (row,)))", "        else:\n            if fatal_acl:\n                raise AclError(\" / \".join(_path + (row,)))")])
+V("C06", "twin_early_return_empty_config", "silent", [(PT, "    passed = odict()\n    for (row, children) in config.items():\n        if with_annotations:", "    passed = odict()\n    if not config:\n        return passed\n    for (row, children) in config.items():\n        if with_annotations:")])
+
+# ---------------------------------------------------------------- C07
+V("C07", "suffix_dropped", "fire", [(SX, "        row += r\"(?:\\s|$)\"", "        row += r\"\"")], rule="C07.R1")
+V("C07", "suffix_word_boundary", "fire", [(SX, "        row += r\"(?:\\s|$)\"", "        row += r\"\\b\"")], rule="C07.R1")
+V("C07", "star_any", "fire", [(SX, "row = re.sub(r\"(^|\\s)\\*\", r\"\\1([^\\\\s]+)\", row)", "row = re.sub(r\"(^|\\s)\\*\", r\"\\1(.+)\", row)")], rule="C07.R1")
+V("C07", "twin_star_bigS", "silent", [(SX, "row = re.sub(r\"(^|\\s)\\*\", r\"\\1([^\\\\s]+)\", row)", "row = re.sub(r\"(^|\\s)\\*\", r\"\\1(\\\\S+)\", row)")])
+V("C07", "twin_suffix_lookahead", "silent", [(SX, "        row += r\"(?:\\s|$)\"", "        row += r\"(?=\\s|$)\"")])
+V("C07", "acl_reverse_always_prepend", "fire", [(ACLP, "    if row.startswith(reverse_prefix + \" \"):\n        return row[len(reverse_prefix + \" \"):]\n    else:\n        return \"%s %s\" % (reverse_prefix, row)", "    if row.startswith(reverse_prefix + \"  \"):\n        return row[len(reverse_prefix + \" \"):]\n    else:\n        return \"%s %s\" % (reverse_prefix, row)")], rule="C07.R2")
+V("C07", "twin_reverse_fstring", "silent", [(ACLP, "        return \"%s %s\" % (reverse_prefix, row)", "        return f\"{reverse_prefix} {row}\"")])
+V("C07", "unknown_param", "fire", [("annet/rulebook/texts/arista.rul", "\n", "\nfoo bar %ordred\n")], rule="C07.R4")
+V("C07", "glued_star_row", "fire", [("annet/rulebook/texts/arista.order", "\n", "\nfoo bar*\n")], rule="C07.R3")
+
+# ---------------------------------------------------------------- C08
+V("C08", "direct_sign_flipped", "fire", [(PT, "            (item[\"order\"] if item[\"order_direct\"] else -item[\"order\"]),", "            (-item[\"order\"] if item[\"order_direct\"] else item[\"order\"]),")], rule="C08.R2")
+V("C08", "order_config_filter", "fire", [(PT, "            ordered.append({\n                \"row\": row,", "            if not children and not direct:\n                continue\n            ordered.append({\n                \"row\": row,")], rule="C08.R1")
+V("C08", "key_reads_patch_len", "fire", [(PT, "            item[\"raw_rule\"],\n            item[\"order_direct\"],\n        )", "            item[\"raw_rule\"],\n            item[\"order_direct\"],\n            len(patch),\n        )")], rule="C08.R2")
+V("C08", "sort_no_recursion", "fire", [(PT, "        for item in self.itms:\n            if item.child:\n                item.child.sort()\n", "")], rule="C08.R1")
+V("C08", "twin_sort_itemgetter", "silent", [(PT, "self.itms.sort(key=operator.attrgetter(\"sort_key\"))", "self.itms.sort(key=lambda item: item.sort_key)")])
+
+# ---------------------------------------------------------------- C09
+V("C09", "aruba_unguarded_commit", "fire", [(CM, "        if do_commit:\n            after.add_cmd(Command(\"commit apply\"))", "        after.add_cmd(Command(\"commit apply\"))")], rule="C09.R1")
+V("C09", "drop_do_commit_kw", "fire", [(API, "            device.hw, cmds,\n            do_commit=not self.args.dont_commit\n        )", "            device.hw, cmds,\n        )")], rule="C09.R2")
+V("C09", "skip_quit", "fire", [(DP, "        rule = deploying.match_deploy_rule(rules, cmd_path, context)\n        cmd_params", "        if cmd_path[-1] == \"quit\":\n            continue\n        rule = deploying.match_deploy_rule(rules, cmd_path, context)\n        cmd_params")], rule="C09.R4")
+V("C09", "timeout_constant", "fire", [("annet/rulebook/deploying.py", "DEFAULT_TIMEOUT = 30", "DEFAULT_TIMEOUT = 60")], rule="C09.R7")
+V("C09", "twin_commit_guard_nested", "silent", [(CM, "        if do_commit and (hw.Huawei.CE or hw.Huawei.NE):\n            after.add_cmd(Command(\"commit\"))", "        if hw.Huawei.CE or hw.Huawei.NE:\n            if do_commit:\n                after.add_cmd(Command(\"commit\"))")])
+V("C09", "twin_kwargs_call", "silent", [(DP, "before, after = make_apply_commands(rule, hw, do_commit, do_finalize)", "before, after = make_apply_commands(rule, hw, do_finalize=do_finalize, do_commit=do_commit)")])
+
+# ---------------------------------------------------------------- C10
+V("C10", "fatal_false", "fire", [(GI, "                    rules=rules,\n                    fatal_acl=True,", "                    rules=rules,\n                    fatal_acl=False,")], rule="C10.R1")
+V("C10", "swallow_aclerror", "fire", [(GI, "            logger.error(\"ACL error: generator is not allowed to yield this command: %s\", err)\n            raise GeneratorError from err", "            logger.error(\"ACL error: generator is not allowed to yield this command: %s\", err)")], rule="C10.R1")
+V("C10", "no_exclusive", "fire", [(GEN, "                new,\n                acl_rules,\n                exclusive=not ctx.args.no_acl_exclusive,", "                new,\n                acl_rules,")], rule="C10.R2")
+V("C10", "tag_first_line_only", "fire", [(RES, "                acl_text += fr\"  %generator_names={gr.name}\"", "                if not acl_text:\n                    acl_text += fr\"  %generator_names={gr.name}\"")], rule="C10.R4")
+V("C10", "add_partial_if_config", "fire", [(GI, "        ret.add_partial(result)", "        if result.config:\n            ret.add_partial(result)")], rule="C10.R3")
+
+# ---------------------------------------------------------------- C11
+V("C11", "removed_is_old", "fire", [("annet/rulebook/huawei/vlandb.py", "    removed = old.difference(new)", "    removed = old")], rule="C11.R1")
+V("C11", "wrong_expand", "fire", [("annet/rulebook/huawei/vlandb.py", "from annet.annlib.lib import huawei_expand_vlandb as expand_vlandb", "from annet.annlib.lib import cisco_expand_vlandb as expand_vlandb")], rule="C11.R3")
+V("C11", "drop_unchanged_test", "fire", [("annet/rulebook/huawei/vlandb.py", "        if multi and multi_all and not diff[Op.UNCHANGED]:", "        if multi and multi_all:")], rule="C11.R2")
+V("C11", "twin_minus_operator", "silent", [("annet/rulebook/huawei/vlandb.py", "    removed = old.difference(new)\n    added = new.difference(old)", "    removed = old - new\n    added = new - old")])
+
+# ---------------------------------------------------------------- C12
+V("C12", "retire_before_put", "fire", [(PAR, "        results = list(pool._run_callbacks(task_result, in_thread=True))  # pylint: disable=protected-access\n        done_queue.put((worker_name, task, results, ret_exc))\n\n        tasks_done += 1\n        if pool.max_tasks and tasks_done >= pool.max_tasks:\n            _logger.debug(\"Maximum tasks limit reached. Now I can retire\")\n            tracing_connector.get().force_flush()\n            sys.exit(9)",
+       "        tasks_done += 1\n        if pool.max_tasks and tasks_done >= pool.max_tasks:\n            _logger.debug(\"Maximum tasks limit reached. Now I can retire\")\n            tracing_connector.get().force_flush()\n            sys.exit(9)\n        results = list(pool._run_callbacks(task_result, in_thread=True))  # pylint: disable=protected-access\n        done_queue.put((worker_name, task, results, ret_exc))")], rule="C12.R2")
+V("C12", "stop_on_restart", "fire", [(PAR, "                    pool[name] = mp.Process(name=name, target=pool_worker, args=worker_args)", "                    task_queue.put(PoolWorkerTask(type=PoolWorkerTaskType.STOP))\n                    pool[name] = mp.Process(name=name, target=pool_worker, args=worker_args)")], rule="C12.R1")
+V("C12", "del_code9", "fire", [(PAR, "            if exitcode != 9:\n                del pool[name]", "            del pool[name]")], rule="C12.R4")
+V("C12", "exception_path_continue", "fire", [(PAR, "            task_result.exc = safe_exc\n            task_result.result = None\n        if pool.capture_output:", "            task_result.exc = safe_exc\n            task_result.result = None\n            continue\n        if pool.capture_output:")], rule="C12.R2")
+
+# ---------------------------------------------------------------- C16
+V("C16", "file_mode_make_patch_direct", "fire", [(API, "    patchtree = patch_from_pre(patching.make_pre(diff_obj), hw, rb, add_comments)", "    patchtree = patching.make_patch(patching.make_pre(diff_obj), rb, hw, add_comments)")], rule="C16.R2")
+V("C16", "strip_before_pre_again", "fire", [(API, "    patchtree = patch_from_pre(patching.make_pre(diff_obj), hw, rb, add_comments)\n    diff_obj = patching.strip_unchanged(diff_obj)", "    diff_obj = patching.strip_unchanged(diff_obj)\n    patchtree = patch_from_pre(patching.make_pre(diff_obj), hw, rb, add_comments)")], rule="C16.R1")
+V("C16", "return_consumed_pre", "fire", [(API, "    patchtree = patch_from_pre(patching.make_pre(diff_obj), hw, rb, add_comments)\n    diff_obj = patching.strip_unchanged(diff_obj)\n    # logic functions rewrite the pre they are given, so the one returned for display is made afresh\n    pre = patching.make_pre(diff_obj)",
+                                           "    pre = patching.make_pre(diff_obj)\n    patchtree = patch_from_pre(pre, hw, rb, add_comments)\n    diff_obj = patching.strip_unchanged(diff_obj)")], rule="C16.R3")
+V("C16", "twin_named_pre", "silent", [(API, "    patchtree = patch_from_pre(patching.make_pre(diff_obj), hw, rb, add_comments)", "    full_pre = patching.make_pre(diff_obj)\n    patchtree = patch_from_pre(full_pre, hw, rb, add_comments)")])
+
+# ---------------------------------------------------------------- C17
+V("C17", "complete_only_new", "fire", [(GEN, "            old = merge_dicts(old, implicit.config(old, implicit_rules))\n", "")], rule="C17.R1")
+V("C17", "implicit_first", "fire", [(GEN, "            new = merge_dicts(new, implicit.config(new, implicit_rules))", "            new = merge_dicts(implicit.config(new, implicit_rules), new)")], rule="C17.R1")
+V("C17", "drop_not_any_matched", "fire", [(IMP, "            if not any(matched_lines) and row not in config_tree:", "            if row not in config_tree:")], rule="C17.R2")
+V("C17", "empty_block_again", "fire", [(IMP, "                implicit_config_tree[row] = config(odict(), rule[\"children\"])", "                implicit_config_tree[row] = odict()")], rule="C17.R4")
+V("C17", "twin_guard_merged", "silent", [(IMP, "        if rule[\"type\"] != \"ignore\":\n            if not any(matched_lines) and row not in config_tree:\n                implicit_config_tree[row]", "        if rule[\"type\"] != \"ignore\" and not any(matched_lines) and row not in config_tree:\n                implicit_config_tree[row]")])
+
+# ---------------------------------------------------------------- C18
+V("C18", "bad_logic_name", "fire", [("annet/rulebook/texts/huawei.rul", "%logic=huawei.misc.port_split", "%logic=huawei.misc.portsplit")], rule="C18.R2")
+V("C18", "missing_endif", "fire", [("annet/rulebook/texts/cisco.rul", "%endif\n", "")], rule="C18.R3")
+V("C18", "hw_soft_in_template", "fire", [("annet/rulebook/texts/cisco.rul", "%if hw.Cisco.ASR or hw.Cisco.XRV:", "%if hw.Cisco.ASR or hw.soft.startswith('7'):")])
+V("C18", "vendor_tie", "fire", [("annet/vendors/library/optixtrans.py", "return [\"Huawei.OptiXtrans\"]", "return [\"OptiXtrans\"]")], rule="C18.R5")
+V("C18", "python_chain_unknown", "fire", [(IMP, "elif device.hw.Huawei.NE:", "elif device.hw.Huawei.NEE:")], rule="C18.R1")
+
+# ---------------------------------------------------------------- C19
+V("C19", "prio_flipped", "fire", [(RES, "result.prio > self.entire_results[result.path].prio:", "result.prio < self.entire_results[result.path].prio:")], rule="C19.R1")
+V("C19", "drop_force", "fire", [(API, "                if diff_content or force_reload:", "                if diff_content:")], rule="C19.R2")
+V("C19", "reload_outside_guard", "fire", [(API, "                    if enable_reload:\n                        reload_cmds[file] = cmds.encode()", "                    if True:\n                        reload_cmds[file] = cmds.encode()")], rule="C19.R2")
+V("C19", "upload_diff", "fire", [(API, "                    upload_files[file] = file_content.encode()", "                    upload_files[file] = diff_content.encode()")], rule="C19.R4")
+V("C19", "twin_prio_swapped_operands", "silent", [(RES, "result.prio > self.entire_results[result.path].prio:", "self.entire_results[result.path].prio < result.prio:")])
+V("C19", "twin_early_continue", "silent", [(API, "                if diff_content or force_reload:\n                    self._has_diff |= True\n", "                if not (diff_content or force_reload):\n                    continue\n                if True:\n                    self._has_diff |= True\n")])
+
+# ---------------------------------------------------------------- C20
+V("C20", "attrs_not_copied", "fire", [(PT, "            attrs = copy.deepcopy(rule_pre[\"attrs\"])", "            attrs = rule_pre[\"attrs\"]")], rule="C20.R1a")
+V("C20", "match_attrs_shared", "fire", [(PT, "    match = {\"attrs\": copy.deepcopy(f_rule[\"attrs\"])}", "    match = {\"attrs\": f_rule[\"attrs\"]}")], rule="C20.R1a")
+V("C20", "mutable_default", "fire", [(PT, "def make_pre(diff: Diff, _parent_match=None) -> Dict[str, Any]:\n    pre = odict()", "def make_pre(diff: Diff, _parent_match=None, _cache={}) -> Dict[str, Any]:\n    pre = odict()")], rule="C20.R2")
+V("C20", "logic_module_memo", "fire", [(CM, "def default(rule, key, diff, **_):", "_seen_keys = {}\n\n\ndef default(rule, key, diff, **_):\n    _seen_keys[key] = True")], rule="C20.R2")
+V("C20", "twin_deepcopy_import_style", "silent", [(PT, "    old = copy.deepcopy(old)\n    new = copy.deepcopy(new)", "    old_copy = copy.deepcopy(old)\n    new_copy = copy.deepcopy(new)\n    old, new = old_copy, new_copy")])
+
+# ---------------------------------------------------------------- C04 / C05
+V("C04", "join_is_patch", "fire", [(TP, "                self._indent_blocks(self._blocks(config, is_patch=False))", "                self._indent_blocks(self._blocks(config, is_patch=True))")], rule="C04.R1")
+V("C04", "drop_block_end", "fire", [(TP, "                    sub_config, is_patch, context=FormatterContext(parent=context)\n                )\n                yield BlockEnd, None", "                    sub_config, is_patch, context=FormatterContext(parent=context)\n                )")], rule="C04.R2")
+V("C04", "no_level_decrement", "fire", [(TP, "            elif row is BlockEnd:\n                _level -= 1\n", "            elif row is BlockEnd:\n                pass\n")], rule="C04.R3")
+V("C04", "ros_parent_row_again", "fire", [(TP, "                    if context and context.row:\n                        prev_prow, prev_prow_context = context.current\n                        prow = f\"{context.row} {row}\"", "                    if context and context.parent and context.parent.row:\n                        prev_prow, prev_prow_context = context.parent.current\n                        prow = f\"{context.parent.row} {row}\"")], rule="C04.R4")
+V("C04", "wrong_splitter", "fire", [(GI, "config = tabparser.parse_to_tree(text=output, splitter=fmtr.split)", "config = tabparser.parse_to_tree(text=output, splitter=tabparser.CommonFormatter().split)")], rule="C04.R3")
+V("C05", "no_consistency_check", "fire", [(TP, "                if curr_level != level:\n                    raise ParserError(\"Invalid top indention: line %d: %s\" % (number, line))\n\n            yield", "\n            yield")], rule="C05.R1")
+V("C05", "yield_comments", "fire", [(TP, "        elif len(stripped) == 0 or stripped.startswith(comments):\n            yield _CommentOrEmpty", "        elif len(stripped) == 0:\n            yield _CommentOrEmpty")], rule="C05.R2")
+V("C05", "overwrite_dups", "fire", [(TP, "            if key not in local_tree:\n                local_tree[key] = odict()", "            local_tree[key] = odict()")], rule="C05.R3")
+V("C05", "twin_refusal_less_than", "silent", [(TP, "                if curr_level != level:\n                    raise ParserError(\"Invalid top indention: line %d: %s\" % (number, line))\n\n            yield", "                if curr_level < level:\n                    raise ParserError(\"Invalid top indention: line %d: %s\" % (number, line))\n\n            yield")])
+
+# ---------------------------------------------------------------- C14 / C15
+V("C14", "missing_return_again", "fire", [("annet/rpl_generators/policy.py", "                raise RuntimeError(f\"Next_hop target {next_hop_action_value.target} is not supported for huawei\")\n            return\n", "                raise RuntimeError(f\"Next_hop target {next_hop_action_value.target} is not supported for huawei\")\n")], rule="C14.R3")
+V("C14", "raw_name", "fire", [("annet/rpl_generators/policy.py", "                yield \"if-match\", \"ip-prefix\", plist.name", "                yield \"if-match\", \"ip-prefix\", name")], rule="C14.R4")
+V("C14", "acl_row_removed", "fire", [("annet/rpl_generators/community.py", "        ip extcommunity-list\n        ip large-community-list\n", "        ip extcommunity-list\n")], rule="C14.R2")
+V("C14", "run_without_acl", "fire", [("annet/rpl_generators/rd.py", "    def acl_huawei(self, _):", "    def acl__huawei(self, _):")], rule="C14.R1")
+V("C15", "copy_paste_name_left", "fire", [("annet/mesh/registry.py", "                        direct_order=False,\n                        name_left=neighbor,\n                        name_right=device,", "                        direct_order=False,\n                        name_left=device,\n                        name_right=device,")], rule="C15.R1")
+V("C15", "remote_as_local", "fire", [("annet/mesh/models_converter.py", "remote_as=ASN(connected.asnum),", "remote_as=ASN(local.asnum),")], rule="C15.R3")
+V("C15", "uselast_field", "fire", [("annet/mesh/peer_models.py", "    families: Annotated[set[FamilyName], Unite()]", "    families: Annotated[set[FamilyName], UseLast()]")], rule="C15.R4")
+V("C15", "handler_same_order", "fire", [("annet/mesh/executor.py", "        else:\n            rule.handler(peer_neighbor, peer_device, session)", "        else:\n            rule.handler(peer_device, peer_neighbor, session)")], rule="C15.R2")
